@@ -46,6 +46,18 @@ def verify_one(fqn, repo=None, reg=None, facts=None, solve_it=True, tier="quick"
     rec["used_contracts"] = sorted(eng.used_contracts)
     info = repo.func(fqn)
     rec["ast_hash"] = info.ast_hash() if info else None
+    # everything whose source text the obligations of this function depend on: itself + inlined callees
+    import hashlib
+    deps = {fqn: rec["ast_hash"]}
+    for q in sorted(eng.inlined):
+        fi = repo.func(q.split(" ")[0])
+        if fi is not None:
+            deps[fi.fqn] = fi.ast_hash()
+    for q in sorted(eng.used_contracts):
+        fi = repo.func(q)
+        deps["contract:" + q] = "present" if (fi is not None or q.startswith("abstract:")) else "missing"
+    rec["deps"] = deps
+    rec["deps_hash"] = hashlib.sha256(repr(sorted(deps.items())).encode()).hexdigest()[:16]
     if solve_it:
         ax = eng.class_axioms()
         for ob in eng.obligations:
@@ -53,6 +65,10 @@ def verify_one(fqn, repo=None, reg=None, facts=None, solve_it=True, tier="quick"
                 v, m, dt, be = "discharged", None, 0.0, "trivial"
             else:
                 v, m, dt, be = solve.check(ax, ob.pc, ob.goal)
+                if v == "unknown":
+                    # one retry with a three times larger budget (verdicts must not flip under machine load)
+                    v, m, dt2, be = solve.check(ax, ob.pc, ob.goal, timeout_ms=3 * solve.Z3_TIMEOUT_MS)
+                    dt += dt2
             o = {"name": ob.name, "kind": ob.kind, "clause": ob.clause, "verdict": v, "time": round(dt, 4),
                  "backend": be, "path": ob.trace, "props": ob.props}
             if tier == "thorough" and v == "discharged" and be != "trivial":
